@@ -18,11 +18,11 @@ ID = "C10"
 CASES = {"quick": 2400, "thorough": 30000}
 FLOOR = {"quick": 1800, "thorough": 22000}
 FLOOR_COUNTERS = {
-    "quick": {"alphas_judged": 9000, "fold_captures": 1800, "rank_deficient_fits": 350, "r2_fits": 400, "explicit_cv_fits": 400, "n_jobs_2_fits": 10, "one_dimensional_targets": 200, "estimators_with_a_past": 700, "integer_typed_features": 150, "non_default_containers": 1000, "configured_by:set_params": 200, "configured_by:setattr": 200, "configured_by:clone": 200, "cutoffs_exactly_on_a_singular_value": 80, "stateful_random_generators": 300, "rejected_calls_in_the_history": 400, "folds_from_the_seeded_global_generator": 150},
-    "thorough": {"alphas_judged": 110000, "fold_captures": 22000, "rank_deficient_fits": 4000, "r2_fits": 5000, "explicit_cv_fits": 5000, "n_jobs_2_fits": 100, "one_dimensional_targets": 2500, "estimators_with_a_past": 9000, "integer_typed_features": 2000, "non_default_containers": 12000, "configured_by:set_params": 2500, "configured_by:setattr": 2500, "configured_by:clone": 2500, "cutoffs_exactly_on_a_singular_value": 1000, "stateful_random_generators": 4000, "rejected_calls_in_the_history": 5000, "folds_from_the_seeded_global_generator": 2000},
+    "quick": {"directions_more_than_7_decades_below_the_largest": 160, "alphas_judged": 9000, "fold_captures": 1800, "rank_deficient_fits": 350, "r2_fits": 400, "explicit_cv_fits": 400, "n_jobs_2_fits": 10, "one_dimensional_targets": 200, "estimators_with_a_past": 700, "integer_typed_features": 150, "non_default_containers": 1000, "configured_by:set_params": 200, "configured_by:setattr": 200, "configured_by:clone": 200, "cutoffs_exactly_on_a_singular_value": 80, "stateful_random_generators": 300, "rejected_calls_in_the_history": 400, "folds_from_the_seeded_global_generator": 150},
+    "thorough": {"directions_more_than_7_decades_below_the_largest": 2000, "alphas_judged": 110000, "fold_captures": 22000, "rank_deficient_fits": 4000, "r2_fits": 5000, "explicit_cv_fits": 5000, "n_jobs_2_fits": 100, "one_dimensional_targets": 2500, "estimators_with_a_past": 9000, "integer_typed_features": 2000, "non_default_containers": 12000, "configured_by:set_params": 2500, "configured_by:setattr": 2500, "configured_by:clone": 2500, "cutoffs_exactly_on_a_singular_value": 1000, "stateful_random_generators": 4000, "rejected_calls_in_the_history": 5000, "folds_from_the_seeded_global_generator": 2000},
 }
 RULE = (
-    "case = X (tall / wide / exactly rank-deficient through duplicated or combined columns / column-scaled; largest "
+    "case = X (tall / wide / exactly rank-deficient through duplicated or combined columns / column-scaled over 4 decades / badly scaled: 1-2 decisive columns 7 to 8.7 decades below the others; largest "
     "singular value 1e-2..1e3), 1-3 noisy targets, alpha grid (absolute 1e-12..1e3 or relative in [0,1) incl. 0), method "
     "tikhonov|cutoff, scorer neg-MSE|neg-RMSE|r2, cv None(+shuffle,+seed) | explicit (train,test) pairs incl. unequal sizes | "
     "KFold objects, n_jobs None|2; 40% of the estimators have a past (fitted on other data with every hyper-parameter different, then set_params). non-trivial = >= 3 alphas judged with distinct oracle scores; distinct by data+config hash."
